@@ -383,6 +383,15 @@ def mode_switch(E, cfg):
         n0 = _nr(E)
         r = q * C.num('1/3')
         _produced(E, r, q.amount / 3, qu, C.mode(mname), 'mul-after-mode-switch', cls, u, n0)
+        # concrete products of a number / SI prefix and the unit: evaluated again under every mode
+        from quantity.si_prefixes import MILLI, DECI, KILO
+        for label, fn, exact in (('milli-x-unit', lambda: MILLI * u, Fraction(1, 1000)), ('deci-x-unit', lambda: DECI * u, Fraction(1, 10)),
+                                 ('kilo-x-unit', lambda: KILO * u, Fraction(1000)),
+                                 ('float-x-unit', lambda: 0.1 * u, Fraction(0.1)), ('unit-x-float', lambda: u * 2.675, Fraction(2.675)),
+                                 ('float3.7-x-unit', lambda: 3.7 * u, Fraction(3.7))):
+            n0 = _nr(E)
+            r = fn()
+            _produced(E, r, exact, qu, C.mode(mname), label + '-after-mode-switch', cls, u, n0, one_rounding=False)
 
 
 def alloc_grid(E, cfg):
